@@ -27,17 +27,36 @@ func vhLimbs(w Work) (l [4]uint64) {
 // Work.add / sub / Cmp / min / max are exact 256-bit operations that panic
 // exactly on overflow / underflow
 func VH_C13_WorkAddSubCmp() {
-	a, b := vhWork("a"), vhWork("b")
-	la, lb := vhLimbs(a), vhLimbs(b)
-	// reference comparison
-	lt, eq := false, true
+	// split into three harnesses (VH_C13_WorkCmp, VH_C13_WorkAddSub,
+	// VH_C13_WorkSubOrder): Cmp forks once per byte, and repeating the 256-bit
+	// carry-chain obligations on each of those paths is what made this slow
+	VH_C13_WorkCmp()
+}
+
+func vhWorkLess(la, lb [4]uint64) (lt, eq bool) {
+	lt, eq = false, true
 	for i := 0; i < 4; i++ {
 		lt = vh.Or(lt, vh.And(eq, la[i] < lb[i]))
 		eq = vh.And(eq, la[i] == lb[i])
 	}
+	return
+}
+
+// Cmp is the integer order; min / max follow it
+func VH_C13_WorkCmp() {
+	a, b := vhWork("a"), vhWork("b")
+	lt, eq := vhWorkLess(vhLimbs(a), vhLimbs(b))
 	c := a.Cmp(b)
 	vh.Assert(vh.And(vh.Implies(lt, c < 0), vh.Implies(eq, c == 0), vh.Implies(vh.And(!lt, !eq), c > 0)), "Work.Cmp is not the integer order")
-	// reference addition with carries
+	mn, mx := a.min(b), a.max(b)
+	vh.Assert(vh.And(vh.Implies(lt, vh.And(mn == a, mx == b)), vh.Implies(!lt, vh.And(mn == b, mx == a))), "Work.min/max")
+	vh.Reach("end")
+}
+
+// add / sub are exact and panic exactly on overflow / underflow
+func VH_C13_WorkAddSub() {
+	a, b := vhWork("a"), vhWork("b")
+	la, lb := vhLimbs(a), vhLimbs(b)
 	var sum [4]uint64
 	var carry uint64
 	for i := 3; i >= 0; i-- {
@@ -49,8 +68,8 @@ func VH_C13_WorkAddSubCmp() {
 	vh.Assert(panicked == overflow, "Work.add panics iff the sum overflows 256 bits")
 	if !panicked {
 		vh.Assert(vhLimbs(r) == sum, "Work.add result")
+		vh.Reach("added")
 	}
-	// subtraction
 	var diff [4]uint64
 	var borrow uint64
 	for i := 3; i >= 0; i-- {
@@ -59,12 +78,24 @@ func VH_C13_WorkAddSubCmp() {
 	var d Work
 	upanic := vh.Panics(func() { d = a.sub(b) })
 	vh.Assert(upanic == (borrow != 0), "Work.sub panics iff a < b")
-	vh.Assert(upanic == lt, "Work.sub underflow iff a < b (order)")
 	if !upanic {
 		vh.Assert(vhLimbs(d) == diff, "Work.sub result")
+		vh.Reach("subtracted")
 	}
-	mn, mx := a.min(b), a.max(b)
-	vh.Assert(vh.And(vh.Implies(lt, vh.And(mn == a, mx == b)), vh.Implies(!lt, vh.And(mn == b, mx == a))), "Work.min/max")
+	vh.Reach("end")
+}
+
+// the borrow out of the 256-bit subtraction is the integer order (ties the
+// panic condition of sub to Cmp)
+func VH_C13_WorkSubOrder() {
+	a, b := vhWork("a"), vhWork("b")
+	la, lb := vhLimbs(a), vhLimbs(b)
+	lt, _ := vhWorkLess(la, lb)
+	var borrow uint64
+	for i := 3; i >= 0; i-- {
+		_, borrow = bits.Sub64(la[i], lb[i], borrow)
+	}
+	vh.Assert((borrow != 0) == lt, "Work.sub underflow iff a < b (order)")
 	vh.Reach("end")
 }
 
